@@ -42,13 +42,7 @@ pub open spec fn proper(t: Tree) -> Option<Seq<Tree>>
         Tree::Pair(h, r) => match proper(*r) { Some(s) => Some(seq![*h] + s), None => None },
     }
 }
-pub open spec fn sproper(s: SExp) -> Option<Seq<SExp>>
-    decreases s
-{
-    if tv(s) == tnil() { Some(Seq::<SExp>::empty()) } else {
-        match s { SExp::Cons(_, h, r) => match sproper(*r) { Some(x) => Some(seq![*h] + x), None => None }, _ => None }
-    }
-}
+//@ include units/inc/sproper.rs
 impl SExp {
 // proved in unit `nullopt`
 //@ extract fn atomize from src/compiler/sexp.rs in impl SExp
@@ -60,11 +54,10 @@ impl SExp {
         _ => r == *self,
     }
 //@ end
-// ASSUMED contract: proper_list returns the elements of a nil-terminated list (nil in the sense of nilp: CLVM value nil) and None otherwise
+// proved in unit `stepper` (same contract text)
 //@ extract fn proper_list from src/compiler/sexp.rs in impl SExp
 //@ stub
-//@ sig r
-    ensures match sproper(*self) { Some(x) => r matches Some(v) && v@ == x, None => r is None }
+//@ sigfile r contracts/sexp_proper_list.sig
 //@ end
 }
 
@@ -168,7 +161,6 @@ pub proof fn lemma_pos_int_path(i: int)
         if s[0] >= 0x80 { assert(be_signed(s) < 0); }
     }
 }
-pub open spec fn sproper_r(s: &SExp) -> Option<Seq<SExp>> { sproper(*s) }
 // a two-element list (cmd arg)
 pub proof fn lemma_sproper_two(s: &SExp)
     requires sproper(*s) matches Some(x) && x.len() == 2
